@@ -15,7 +15,7 @@ LEVEL = "exploration"
 TECHNIQUE = "deterministic network simulation of keep-alive histories with hostile server framing; request-id tagged bodies + dirty-socket monitor"
 LEVEL_TEXT = (
     "Seeded histories of 2-4 requests on one pool against a scripted origin (framings, keep-alive/close, stray and forged bytes after body-less responses, "
-    "interim 1xx, delayed tails, early EOF) with every caller disposal; each delivered byte string is checked against what the origin generated for that very request. Sampling."
+    "interim 1xx, delayed tails -- including a late tail that is itself a well-formed HTTP response --, early EOF) with every caller disposal; each delivered byte string is checked against what the origin generated for that very request. Sampling."
 )
 LEVEL_NOTE = "trusted: SimSocket/poll semantics (readability at checkout), the scripted origin; plain HTTP only; histories <= 4 requests"
 N = {"quick": 40000, "thorough": 600000}
